@@ -6,6 +6,8 @@ use crate::driver::DriverError;
 use crate::error::StreamWriteError;
 use crate::VarInt;
 use std::future::pending;
+use std::sync::Arc;
+use tokio::sync::mpsc;
 use tokio::sync::watch;
 use wtransport_proto::bytes;
 use wtransport_proto::error::ErrorCode;
@@ -76,60 +78,85 @@ impl LocalSettingsStream {
 }
 
 pub struct RemoteSettingsStream {
-    stream: Option<StreamUniRemoteH3>,
-    settings: watch::Sender<Option<Settings>>,
+    result: Option<mpsc::Receiver<DriverError>>,
+    settings: Arc<watch::Sender<Option<Settings>>>,
 }
 
 impl RemoteSettingsStream {
     pub fn empty() -> Self {
         Self {
-            stream: None,
-            settings: watch::channel(None).0,
+            result: None,
+            settings: Arc::new(watch::channel(None).0),
         }
     }
 
     pub fn is_empty(&self) -> bool {
-        self.stream.is_none()
+        self.result.is_none()
     }
 
+    /// Starts processing the remote control stream.
+    ///
+    /// Frames are read by a dedicated task: the future reading a frame keeps the bytes
+    /// received so far, hence it must not be dropped (e.g., by a `select!`) while a frame
+    /// is only partially received. The task terminates as soon as `self` is dropped.
     pub fn set_stream(&mut self, stream: StreamUniRemoteH3) {
         assert!(matches!(stream.kind(), StreamKind::Control));
-        self.stream = Some(stream);
+
+        let (result_tx, result_rx) = mpsc::channel(1);
+        let settings = self.settings.clone();
+
+        tokio::spawn(async move {
+            tokio::select! {
+                error = Self::run_stream(stream, settings) => {
+                    let _ = result_tx.send(error).await;
+                }
+                () = result_tx.closed() => {}
+            }
+        });
+
+        self.result = Some(result_rx);
     }
 
     pub fn subscribe(&self) -> RemoteSettingsWatcher {
         RemoteSettingsWatcher(self.settings.subscribe())
     }
 
+    /// Cancel-safe.
     pub async fn run(&mut self) -> DriverError {
+        match self.result.as_mut() {
+            Some(result) => result.recv().await.unwrap_or(DriverError::NotConnected),
+            None => pending().await,
+        }
+    }
+
+    async fn run_stream(
+        mut stream: StreamUniRemoteH3,
+        settings: Arc<watch::Sender<Option<Settings>>>,
+    ) -> DriverError {
         loop {
-            let frame = match self.read_frame().await {
+            let frame = match Self::read_frame(&mut stream).await {
                 Ok(frame) => frame,
                 Err(driver_error) => return driver_error,
             };
 
-            if self.settings.borrow().is_none() {
+            if settings.borrow().is_none() {
                 if !matches!(frame.kind(), FrameKind::Settings) {
                     return DriverError::Proto(ErrorCode::MissingSettings);
                 }
 
-                let settings = match Settings::with_frame(&frame) {
-                    Ok(settings) => settings,
+                let new_settings = match Settings::with_frame(&frame) {
+                    Ok(new_settings) => new_settings,
                     Err(error_code) => return DriverError::Proto(error_code),
                 };
 
-                self.settings.send_replace(Some(settings));
+                settings.send_replace(Some(new_settings));
             } else if !matches!(frame.kind(), FrameKind::Exercise(_)) {
                 return DriverError::Proto(ErrorCode::FrameUnexpected);
             }
         }
     }
 
-    async fn read_frame<'a>(&mut self) -> Result<Frame<'a>, DriverError> {
-        let Some(stream) = self.stream.as_mut() else {
-            return pending().await;
-        };
-
+    async fn read_frame<'a>(stream: &mut StreamUniRemoteH3) -> Result<Frame<'a>, DriverError> {
         match stream.read_frame().await {
             Ok(frame) => Ok(frame),
             Err(ProtoReadError::H3(error_code)) => Err(DriverError::Proto(error_code)),
